@@ -2043,7 +2043,7 @@ class Compiler:
         for name in names:
             yield from template(
                 "BACKUP = get(KEY, __marker)",
-                BACKUP=identifier("backup_%s" % name, id(names)),
+                BACKUP=identifier("backup_%s" % mangle(name), id(names)),
                 KEY=ast.Constant(str(name)),
             )
 
@@ -2052,6 +2052,6 @@ class Compiler:
             yield from template(
                 "if BACKUP is __marker: del econtext[KEY]\n"
                 "else:                 econtext[KEY] = BACKUP",
-                BACKUP=identifier("backup_%s" % name, id(names)),
+                BACKUP=identifier("backup_%s" % mangle(name), id(names)),
                 KEY=ast.Constant(str(name)),
             )
